@@ -1,4 +1,4 @@
-CONSTANT NF = 3
+CONSTANT NF = 4
 INIT Init
 NEXT Next
 INVARIANT TypeOK
